@@ -466,13 +466,18 @@ def legs : Nat → List Float → Option (List (Leg Float) × List Float)
 def sols : Nat → List Float → Option (List (Sol Float) × List Float)
   | 0, r => some ([], r)
   | k + 1, r => match r with
-    | kind :: r => do
-      let (x, r) ← v6 r
-      match r with
-      | flag :: r => do
+    | kind :: r =>
+      if kind == 4 then do       -- the repaired top pose: a 4×4
+        let (T, r) ← t4 r
         let (ss, r) ← sols k r
-        some ((if kind == 1 then Sol.raph x (flag != 0) else Sol.fsolve x) :: ss, r)
-      | [] => none
+        some (Sol.fix T :: ss, r)
+      else do
+        let (x, r) ← v6 r
+        match r with
+        | flag :: r => do
+          let (ss, r) ← sols k r
+          some ((if kind == 1 then Sol.raph x (flag != 0) else if kind == 3 then Sol.raised else Sol.fsolve x) :: ss, r)
+        | [] => none
     | [] => none
 
 def oracle (r : List Float) : Option (List (Sol Float) × List Float) :=
